@@ -85,9 +85,6 @@ func h07m(thorough bool) {
 	X := vxNoisyCopy(K, []string{"a", "b", "h"}, edits)
 	vxAssume(len(X) >= c.q)
 	pat := 0
-	if thorough {
-		pat = []int{0, 2}[vxChoice(2)]
-	}
 	xw, xb := vxEmbed(X, 0, 0, pat)
 	if len(xb) > 0 {
 		xb[len(xb)-1] = false
